@@ -110,6 +110,9 @@ class DS(EventDataset):
 
 CUT = 1.5
 OFFSET = -2
+v0 = "module global shadowed by lambda parameters"
+v1 = 12345
+j = -1
 def add_offset(x):
     return x + OFFSET
 def ratio(a, b):
@@ -145,7 +148,13 @@ STAGES = {
           ("Select", "{v}.Jets().Select(lambda j: j.Tracks().Where(lambda t: t.pt() > 0).Count())", "Is"),
           ("Select", "len({v}.Jets())", "I"),
           ("Select", "ratio({v}.met(), b={v}.Jets().Count())", "F"),
-          ("Select", "(lambda m: m * m + OFFSET)({v}.met())", "F")],
+          ("Select", "(lambda m: m * m + OFFSET)({v}.met())", "F"),
+          ("Select", "Info(n={v}.Jets().Count(), m={v}.met())", "D"),
+          ("Select", "Pair(b={v}.met(), a=1.0)", "P"),
+          # the parameter used as a BARE name inside a nested lambda (module globals of the same
+          # names exist: parameters shadow them)
+          ("Select", "{v}.Jets().Select(lambda j: (j.pt(), {v})[1].met() + j.pt())", "Fs"),
+          ("Select", "{v}.Jets().Where(lambda j: [j, {v}][1].met() > j.pt()).Count()", "I")],
     "J": [("Select", "{v}.pt()", "F"), ("Where", "{v}.pt(scale=2.0) > 1", "J"),
           ("Select", "({v}.pt(), {v}.eta())", "TFF"), ("SelectMany", "{v}.Tracks()", "T"),
           ("Select", "{v}.shift(b=2.0, a={v}.eta())", "F"), ("Select", "{v}.Tracks().Count()", "I"),
